@@ -94,7 +94,7 @@ def parseChunks (s : String) : Option (List Varint.Bytes) :=
     `modelSem` = the code (`Datagram.encode` through the `Buf` view, `Datagram.decode`, `handleSendError`),
     `specSem` = RFC 9297 §2.1 (`varint(sid/4) ‖ payload`, `rfcDecode`) and the sentences on errors: TooLarge /
     NotAvailable are answered to the caller and are not connection errors; a transport connection error is the
-    connection's outcome and every handle names it like the driver does (C05). -/
+    connection's outcome and every handle - the datagram sender too - names it like the driver does (C05). -/
 
 inductive Mode where
   | ok | na | tl | max (n : Nat) | conn (e : CE)
@@ -103,8 +103,8 @@ structure Sem where
   wire : Nat → Varint.Bytes → Varint.Bytes
   /-- `none` = H3_DATAGRAM_ERROR -/
   dec : Varint.Bytes → Option (Nat × Varint.Bytes)
-  /-- the sender's answer to a transport connection error `e` when `first` is the connection's error afterwards -/
-  sendConn : CE → Origin → String
+  /-- the sender's answer to a transport connection error `e` when `cell` is the connection's error before the call -/
+  sendConn : CE → Option Origin → String
 
 def ceStr : CE → String
   | .app c => s!"app:{c}"
@@ -127,18 +127,21 @@ def sendErrStr : SendErr → String
 def modelSem : Sem where
   wire := fun sid p => (H3.Datagram.encode sid p).view
   dec := fun b => match H3.Datagram.decode b with | .ok s p => some (s, p) | .datagramError => none
-  sendConn := fun e first =>
-    let a := (handleSendError (.conn e)).1
-    -- the answer names the transport's own value wrapped in `Remote`: D-18b where that is not what the connection reports
-    sendErrStr a ++ (if a = .conn (convertOrigin first) then "" else if first = .quic e then "#D-18b" else "")
+  -- `handle_send_datagram_error`: the transport's error goes through `handle_quic_stream_error`, the answer is the cell's winner
+  sendConn := fun e cell => sendErrStr (handleSendError cell (.conn e)).1
 
 def specSem : Sem where
   wire := fun sid p => Varint.encode (sid / 4) ++ p
   dec := fun b => match Varint.rfcDecode b with
     | none => none
     | some (q, rest) => if 4 * q > 2^62 - 1 then none else some (4 * q, rest)
-  -- the connection's outcome when this error is the first one; no opinion when the connection had failed before
-  sendConn := fun e first => if first = .quic e then "err:conn:" ++ connErrStr (convertOrigin (.quic e)) else "*"
+  -- the connection's outcome, named like the driver and every other handle name it: the error the connection had failed
+  -- with before (C05: the first error wins; reading R-05c: the datagram sender is a handle), else this one
+  sendConn := fun e cell => "err:conn:" ++ (match cell with
+    | some first => connErrStr (convertOrigin first)
+    | none => match e with
+      | .timeout => "timeout"
+      | e => "remote:" ++ ceStr e)
 
 inductive Blocked where
   | none
@@ -186,7 +189,7 @@ def sendOne (sem : Sem) (s : Sc) (sid : Nat) (p : Varint.Bytes) : Sc × String :
   match s.tErr.orElse (fun _ => match s.mode with | .conn e => some e | _ => none) with
   | some e =>
     let first := s.origin.getD (.quic e)
-    ({ s with origin := some first }, sem.sendConn e first)
+    ({ s with origin := some first }, sem.sendConn e s.origin)
   | none =>
     match s.mode with
     | .na => (s, "not-available")
